@@ -344,7 +344,7 @@ class EditRunner(G.Runner):
         for path in self.router.radidict._routes_iter():
             rt = path[-1][DATA]
             lines.append(repr(rt))
-            for m in rt.methods.values():
+            for m in (rt.methods.values() if rt is not None else ()):
                 lines += [repr(m), str(m), m.handler_fullname]
         return self._emit('LS', hs(self._canon_text('\n'.join(lines))))
 
